@@ -548,6 +548,16 @@ impl Pool for PoolImpl {
         let (slot, block_hash) = &block_id;
         let (parent_slot, parent_hash) = &parent_id;
 
+        #[cfg(feature = "verif-hooks")]
+        crate::verif::record_finalization(
+            self.epoch_info.own_id(),
+            crate::verif::FinalizationKind::BlockRegistered(
+                *slot,
+                block_hash.clone(),
+                *parent_slot,
+                parent_hash.clone(),
+            ),
+        );
         let finalization_event = self
             .finality_tracker
             .add_parent(block_id.clone(), parent_id.clone());
